@@ -200,28 +200,74 @@ Proof.
   rewrite E, str_cmp_refl in H1. discriminate.
 Qed.
 
+(* without -a an unvalued report sorts by weight, and every weight is zero: nothing moves *)
+Lemma insert_sorted_false {A} (x : A) l : insert_sorted (fun _ _ => false) x l = l ++ [x].
+Proof. induction l as [|y l IH]; cbn [insert_sorted app]; [reflexivity|]. rewrite IH. reflexivity. Qed.
+
+Lemma sort_by_false {A} (lt : A -> A -> bool) l : (forall x y, In x l -> In y l -> lt x y = false) -> sort_by lt l = l.
+Proof.
+  intros H. rewrite (sort_by_ext_in lt (fun _ _ => false) l H). clear H.
+  induction l as [|x l IH] using rev_ind; [reflexivity|]. rewrite sort_by_snoc, IH. apply insert_sorted_false.
+Qed.
+
+Lemma node_weight_false_zero n : (dvalue (node_weight false n) == 0)%Q.
+Proof.
+  induction n as [s p hv a ch IH] using node_ind_size. cbn [node_weight].
+  assert (G : forall w, (dvalue w == 0)%Q -> (dvalue (fold_left (fun w c => add w (node_weight false c)) ch w) == 0)%Q).
+  { induction IH as [|c ch Hc _ IHch]; intros w Hw; cbn [fold_left]; [exact Hw|]. apply IHch. rewrite dvalue_add, Hw, Hc. reflexivity. }
+  apply G. reflexivity.
+Qed.
+
+Lemma by_weight_false_never a b : by_weight false a b = false.
+Proof.
+  unfold by_weight. destruct (less_than (node_weight false a) (node_weight false b)) eqn:E; [|reflexivity].
+  apply less_than_value in E. rewrite !node_weight_false_zero in E. exfalso. exact (Qlt_irrefl 0 E).
+Qed.
+
+Lemma seg_sorted_map f l : (forall c, n_seg (f c) = n_seg c) -> seg_sorted l -> seg_sorted (map f l).
+Proof.
+  intros Hf. induction l as [|c l IH]; cbn [seg_sorted map]; [trivial|]. intros [H1 H2]. split; [|exact (IH H2)].
+  rewrite Forall_forall in *. intros d' Hd'. apply in_map_iff in Hd'. destruct Hd' as (d & <- & Hd). rewrite !Hf. exact (H1 d Hd).
+Qed.
+
+(* siblings below the top level stay in segment order, with and without -a *)
+Lemma children_sorted alpha l :
+  (forall c, In c l -> acc_level (n_path c) <> 1) -> seg_sorted l -> sort_by (sibling_ltb alpha false) l = l.
+Proof.
+  intros Hlev Hseg. destruct alpha.
+  - rewrite (sort_by_ext_in (sibling_ltb true false) by_name).
+    2: { intros x y Hx _. exact (sibling_ltb_below true false x y (Hlev x Hx)). }
+    apply seg_sorted_SS in Hseg. clear Hlev.
+    induction l as [|x l IH] using rev_ind; [reflexivity|]. rewrite sort_by_snoc.
+    assert (Hl : StronglySorted (fun a b => by_name a b = true) l /\ Forall (fun y => by_name y x = true) l).
+    { clear IH. induction l as [|y l IHl]; [split; constructor|]. cbn [app] in Hseg. inversion Hseg as [|? ? S1 A1]; subst.
+      destruct (IHl S1) as [I1 I2]. rewrite Forall_forall in A1. split.
+      - constructor; [exact I1|]. rewrite Forall_forall. intros z Hz. apply A1. apply in_or_app. left. exact Hz.
+      - constructor; [apply A1; apply in_or_app; right; left; reflexivity|exact I2]. }
+    destruct Hl as [Hl1 Hl2]. rewrite (IH Hl1). clear IH Hseg Hl1.
+    induction l as [|y l IHl]; [reflexivity|]. inversion Hl2 as [|? ? Hy Hrest]; subst. cbn [insert_sorted app].
+    assert (Hxy : by_name x y = false).
+    { destruct (by_name x y) eqn:E; [|reflexivity]. pose proof (by_name_trans _ _ _ E Hy) as H. rewrite by_name_irrefl in H. discriminate. }
+    rewrite Hxy, (IHl Hrest). reflexivity.
+  - apply sort_by_false. intros x y Hx _. rewrite (sibling_ltb_below false false x y (Hlev x Hx)). apply by_weight_false_never.
+Qed.
+
 (* below the top level the sort keeps the children in segment order *)
-Lemma node_sort_sib_sorted valued : forall n,
-  wf_node n -> n_path n <> [] -> sib_sorted n -> sib_sorted (node_sort true valued n).
+Lemma node_sort_sib_sorted alpha : forall n,
+  wf_node n -> n_path n <> [] -> sib_sorted n -> sib_sorted (node_sort alpha false n).
 Proof.
   induction n as [s p hv a ch IH] using node_ind_size. intros Hwf Hp Hs. cbn [n_path] in Hp.
   apply sib_sorted_unfold in Hs. destruct Hs as [Hseg Hall]. apply wf_node_children in Hwf. unfold wf_children in Hwf.
   cbn [node_sort]. apply sib_sorted_unfold.
-  assert (Hlev : forall c, In c (map (node_sort true valued) ch) -> acc_level (n_path c) <> 1).
+  assert (Hlev : forall c, In c (map (node_sort alpha false) ch) -> acc_level (n_path c) <> 1).
   { intros c' Hc'. apply in_map_iff in Hc'. destruct Hc' as (c & <- & Hc). rewrite node_sort_path.
     rewrite Forall_forall in Hwf. destruct (Hwf c Hc) as [E _]. rewrite E. unfold acc_level. rewrite app_length. cbn [length].
     destruct p; [contradiction|cbn [length]; lia]. }
-  rewrite (sort_by_ext_in (sibling_ltb true valued) by_name).
-  2: { intros x y Hx _. exact (sibling_ltb_below true valued x y (Hlev x Hx)). }
-  split.
-  - apply seg_sorted_SS. apply (sorted_strict by_name n_seg).
-    + apply sort_by_sorted; [exact by_name_irrefl|exact by_name_trans].
-    + eapply Permutation_NoDup; [apply Permutation_map; symmetry; apply sort_by_perm|].
-      rewrite map_map. rewrite (map_ext _ n_seg) by (intros c; apply node_sort_seg). apply seg_sorted_nodup. exact Hseg.
-    + intros x y _ _ H1 H2. unfold by_name in H1, H2. apply str_ltb_total; assumption.
-  - eapply Permutation_Forall; [symmetry; apply sort_by_perm|]. rewrite Forall_forall in *.
-    intros c' Hc'. apply in_map_iff in Hc'. destruct Hc' as (c & <- & Hc). destruct (Hwf c Hc) as [E Hwc].
-    apply (IH c Hc); [exact Hwc|rewrite E; intros H; apply app_eq_nil in H; destruct H; discriminate|exact (Hall c Hc)].
+  assert (Hseg' : seg_sorted (map (node_sort alpha false) ch)) by (apply seg_sorted_map; [intros c; apply node_sort_seg|exact Hseg]).
+  rewrite (children_sorted alpha _ Hlev Hseg'). split; [exact Hseg'|].
+  rewrite Forall_forall in *.
+  intros c' Hc'. apply in_map_iff in Hc'. destruct Hc' as (c & <- & Hc). destruct (Hwf c Hc) as [E Hwc].
+  apply (IH c Hc); [exact Hwc|rewrite E; intros H; apply app_eq_nil in H; destruct H; discriminate|exact (Hall c Hc)].
 Qed.
 
 Definition plt (a b : account) : Prop := path_cmp a b = Lt.
@@ -282,17 +328,17 @@ Proof.
 Qed.
 
 (* the whole tree: top level by account type *)
-Lemma root_rows_sorted valued root :
+Lemma root_rows_sorted alpha root :
   wf_node root -> n_path root = [] -> sib_sorted root ->
   (forall x, In x (cpaths (n_children root)) -> account_ok x = true) ->
-  rsorted (cpaths (n_children (node_sort true valued root))).
+  rsorted (cpaths (n_children (node_sort alpha false root))).
 Proof.
   destruct root as [s p hv a ch]. cbn [n_path n_children]. intros Hwf -> Hs Hok.
   apply sib_sorted_unfold in Hs. destruct Hs as [Hseg Hall]. apply wf_node_children in Hwf. unfold wf_children in Hwf. cbn [app] in Hwf.
   rewrite Forall_forall in Hwf, Hall.
   cbn [node_sort n_children].
-  set (ch' := map (node_sort true valued) ch).
-  assert (Hch' : forall c', In c' ch' -> exists c, In c ch /\ c' = node_sort true valued c /\ n_path c' = [n_seg c'] /\ wf_node c' /\ sib_sorted c' /\ account_ok [n_seg c'] = true).
+  set (ch' := map (node_sort alpha false) ch).
+  assert (Hch' : forall c', In c' ch' -> exists c, In c ch /\ c' = node_sort alpha false c /\ n_path c' = [n_seg c'] /\ wf_node c' /\ sib_sorted c' /\ account_ok [n_seg c'] = true).
   { intros c' Hc'. apply in_map_iff in Hc'. destruct Hc' as (c & <- & Hc). exists c. split; [exact Hc|split; [reflexivity|]].
     destruct (Hwf c Hc) as [E Hwc]. rewrite node_sort_path, node_sort_seg. split; [exact E|].
     split; [apply node_sort_wf; exact Hwc|]. split.
@@ -300,7 +346,7 @@ Proof.
     - rewrite <- E. apply Hok. rewrite cpaths_flat_map. apply in_flat_map. exists c. split; [exact Hc|apply npaths_head]. }
   assert (Hlev : forall c', In c' ch' -> acc_level (n_path c') = 1).
   { intros c' Hc'. destruct (Hch' c' Hc') as (_ & _ & _ & E & _). rewrite E. reflexivity. }
-  rewrite (sort_by_ext_in (sibling_ltb true valued) by_rank).
+  rewrite (sort_by_ext_in (sibling_ltb alpha false) by_rank).
   2: { intros x y Hx Hy. apply sibling_ltb_top; apply Hlev; assumption. }
   assert (Hperm : Permutation (sort_by by_rank ch') ch') by apply sort_by_perm.
   assert (Hstrict : StronglySorted (fun x y => by_rank x y = true) (sort_by by_rank ch')).
@@ -336,7 +382,6 @@ Qed.
 Section Order.
   Variables (cfg : balance_cfg) (ds : list sdirective) (r : report) (part : partition) (dl : list directive).
   Hypothesis Hv : bc_valuation cfg = None.
-  Hypothesis Halpha : bc_alpha cfg = true.
   Hypothesis Hrun : balance_report cfg ds = COk (r, part).
   Hypothesis Hp : parse_directives ds = MOk dl.
   Hypothesis Hsyn : postings_syntactic dl.
@@ -361,7 +406,7 @@ Section Order.
     pose proof (Hacc cfg ds r part dl Hv Hrun Hp Hsyn) as Hok.
     pose proof (Hrows cfg ds r part dl Hv Hrun Hp Hsyn) as Hrw.
     rewrite clines_paths. apply rsorted_ext.
-    - unfold sorted_al, sorted_eie, rc, balance_render_cfg. cbn [rc_alpha rc_valuation]. rewrite Halpha, Hv.
+    - unfold sorted_al, sorted_eie, rc, balance_render_cfg. cbn [rc_alpha rc_valuation]. rewrite Hv.
       destruct b; apply root_rows_sorted; try assumption; intros x Hx; apply Hok; unfold rows; apply in_or_app; [left|right]; exact Hx.
     - apply all_rows_sorted.
     - intros x. rewrite all_rows_in.
@@ -394,18 +439,18 @@ Section Order.
   Qed.
 End Order.
 
-(* the text that `knut balance --csv -a` prints = the text of the ledger's CSV *)
+(* the text that `knut balance --csv` prints (with or without -a) = the text of the ledger's CSV *)
 Theorem balance_csv_is_ledger_csv cfg ds text :
-  bc_valuation cfg = None -> bc_alpha cfg = true ->
+  bc_valuation cfg = None ->
   balance_csv cfg ds = COk text ->
   exists dl,
     parse_directives ds = MOk dl /\
     (postings_syntactic dl ->
      exists rows, ledger_csv cfg dl = Some rows /\ text = concat (map (fun rec => join [44] rec ++ [10]) rows)).
 Proof.
-  intros Hv Ha H. unfold balance_csv in H. apply cbind_ok in H. destruct H as (t & Ht & H). inversion H; subst text. clear H.
+  intros Hv H. unfold balance_csv in H. apply cbind_ok in H. destruct H as (t & Ht & H). inversion H; subst text. clear H.
   unfold balance_table in Ht. apply cbind_ok in Ht. destruct Ht as ([r part] & Hrun & Ht). cbn [fst snd] in Ht. inversion Ht; subst t. clear Ht.
   destruct (balance_report_parsed _ _ _ _ Hrun) as (dl & Hp). exists dl. split; [exact Hp|]. intros Hsyn.
-  destruct (csv_rows_are_ledger_rows cfg ds r part dl Hv Ha Hrun Hp Hsyn) as (rows & Hl & Hr).
+  destruct (csv_rows_are_ledger_rows cfg ds r part dl Hv Hrun Hp Hsyn) as (rows & Hl & Hr).
   exists rows. split; [exact Hl|]. unfold render_csv. rewrite <- Hr. reflexivity.
 Qed.
